@@ -40,6 +40,7 @@ type Profile struct {
 	HeadJunk           bool                           // script/style in head
 	Carriers           int                            // percentage chance of class A / class B carriers inside cells, captions, tweets
 	TablesInLists      int                            // weight of data tables as the (only) content of list items and quotes
+	RowGaps            bool                           // comments / scripts between the rows and cells of data tables
 	EscapedText        bool                           // pre blocks may hold escaped markup as visible text
 	EmptyCells         bool                           // data tables may hold empty cells and spacer rows
 	InlineNestables    bool                           // ul/ol/li/blockquote/pre may carry style="display:inline"
@@ -447,9 +448,15 @@ func (g *G) dataTable() string {
 	}
 	b.WriteString("</tr>\n")
 	for r := 0; r < rows; r++ {
+		if g.P.RowGaps && g.intn(0, 4, "rowgap") == 0 {
+			b.WriteString(g.pick("rowgapk", "<!-- row group -->", "<script>var r=1</script>", "<!---->"))
+		}
 		b.WriteString("<tr" + g.at("tr") + ">")
 		spacer := g.P.EmptyCells && g.intn(0, 9, "spacer") == 0
 		for c := 0; c < cols; c++ {
+			if c > 0 && g.P.RowGaps && g.intn(0, 9, "cellgap") == 0 {
+				b.WriteString("<!-- c -->")
+			}
 			if spacer || (g.P.EmptyCells && g.intn(0, 7, "emptycell") == 0) {
 				b.WriteString("<td" + g.at("td") + "></td>")
 				continue
@@ -652,7 +659,12 @@ func (g *G) figure() string {
 	if g.P.Carriers > 0 && g.chance(12, "hiddencapwrap") {
 		// a caption that sits under a hidden ancestor inside the figure: class A
 		g.push("ha")
-		b.WriteString(g.hiddenOpen("div") + "<figcaption>" + g.words(g.intn(1, 6, "hcw")) + ` <a href="` + g.url("a") + `">` + g.words(1) + "</a></figcaption></div>")
+		mid, midEnd := "", ""
+		if g.chance(50, "hiddencapdeep") {
+			mid, midEnd = "<"+g.pick("hiddencapmid", "div", "span")+">", "" // a visible element between the hidden ancestor and the caption
+			midEnd = "</" + mid[1:]
+		}
+		b.WriteString(g.hiddenOpen("div") + mid + "<figcaption>" + g.words(g.intn(1, 6, "hcw")) + ` <a href="` + g.url("a") + `">` + g.words(1) + "</a></figcaption>" + midEnd + "</div>")
 		g.pop()
 		b.WriteString("</figure>\n")
 		return b.String()
@@ -930,6 +942,16 @@ func (g *G) block(kind string) string {
 			inner = g.linkCluster() + g.para()
 		}
 		return "<div" + marker + ">" + inner + "</div>\n"
+	case "uspacer":
+		// a block that holds nothing but Unicode spaces
+		sp := g.pick("uspk", "&emsp;", "&ensp;&ensp;", "&thinsp;", "\u3000", "&emsp; &nbsp;")
+		if g.chance(50, "uspwrap") {
+			return "<div><p>" + sp + "</p>" + g.pick("uspm", strings.TrimSpace(g.img()), strings.TrimSpace(g.video()), strings.TrimSpace(g.youtube()), g.dataTable()) + "</div>\n"
+		}
+		return "<p>" + sp + "</p>\n"
+	case "jsmedia":
+		// media as the only child of a javascript: link (lightbox, gallery)
+		return `<a href="javascript:` + g.pick("jsmk", "void(0)", "openLightbox()", ";") + `">` + g.pick("jsmm", strings.TrimSpace(g.img()), strings.TrimSpace(g.figure()), strings.TrimSpace(g.video())) + "</a>\n"
 	case "linkwrapped":
 		// a block whose only content is a link around one inline element
 		tag := g.pick("lwtag", "h2", "h3", "p", "div")
